@@ -742,11 +742,11 @@ def c17(tier):
     for o in picks:
         o = dict(o)
         o["id"] = "C17/" + o["id"]
-        o.update(only_ub=True, safety=True, count_ub=True, optional_reach=[""], no_validate=True)
+        o.update(only_ub=True, safety=True, count_ub=True, optional_reach=[""])
         out.append(o)
     # the pair hash of the label store is executed (overflow / shift checked) in one step harness
     h = step("C17", "step_dir.cpp", "dir-hash", 3, 3, 1, 0, 0, defs={"VERIF_EXEC_HASH": None})
-    h.update(only_ub=True, safety=True, count_ub=True, optional_reach=[""], no_validate=True)
+    h.update(only_ub=True, safety=True, count_ub=True, optional_reach=[""])
     out.append(h)
     return out
 
